@@ -265,6 +265,9 @@ func field(v reflect.Value, i int) reflect.Value {
 	return reflect.NewAt(f.Type(), unsafe.Pointer(f.UnsafeAddr())).Elem()
 }
 
+// Field is the exported form of field.
+func Field(v reflect.Value, i int) reflect.Value { return field(v, i) }
+
 func fieldByName(v reflect.Value, name string) reflect.Value {
 	sf, _ := v.Type().FieldByName(name)
 	return field(v, sf.Index[0])
